@@ -247,9 +247,9 @@ pub const SEEDS: &[&str] = &[
     "schema { query: Q mutation: M }
 directive @d(a: Int!, b: String = \"x\") repeatable on OBJECT | FIELD_DEFINITION | ARGUMENT_DEFINITION
 directive @e on ENUM_VALUE | INPUT_FIELD_DEFINITION | UNION | SCALAR | INTERFACE | ENUM | INPUT_OBJECT | SCHEMA
-type Q implements I & J @d(a: 1) { f(x: Int = 1, y: In): T g: [U!]! i: I @d(a: 2) }
+type Q implements I & J @d(a: 1) { f(x: Int = 1, y: In): T g: [U!]! i: I @d(a: 2) l: [T] ll: [[T]!] lu: [Q!]! }
 type M { m(in: In!): Int }
-interface I implements J { f(x: Int): T i: I }
+interface I implements J { f(x: Int): T i: I l: [T] ll: [[T]] lu: [U] }
 interface J { i: J }
 type T { t: Int e: E s: S }
 union U @e = Q | T
@@ -520,7 +520,11 @@ pub fn cases(args: &[String]) {
         }
     };
     for (k, sdl) in SEEDS.iter().enumerate() {
-        let real = Schema::parse_and_validate(sdl.to_string(), "seed.graphql").expect("seed must be valid");
+        // the seed is projected from what was built even if the code under test rejects it (its verdict is data)
+        let real = match Schema::parse_and_validate(sdl.to_string(), "seed.graphql") {
+            Ok(v) => v.into_inner(),
+            Err(e) => e.partial,
+        };
         let mut abs = project(&real);
         if k == 1 {
             abs["schemaDef"]["explicit"] = json!(false);
@@ -544,7 +548,11 @@ pub fn cases(args: &[String]) {
     // C15: mutate invalid schemas until the real validator accepts them again
     let until_valid = arg_num(args, "--until-valid", 100) as usize;
     for (k, sdl) in SEEDS.iter().enumerate() {
-        let real = Schema::parse_and_validate(sdl.to_string(), "seed.graphql").expect("seed must be valid");
+        // the seed is projected from what was built even if the code under test rejects it (its verdict is data)
+        let real = match Schema::parse_and_validate(sdl.to_string(), "seed.graphql") {
+            Ok(v) => v.into_inner(),
+            Err(e) => e.partial,
+        };
         let abs = project(&real);
         let ms = mutants(&abs);
         let mut found = 0;
